@@ -1304,8 +1304,9 @@ class Signature:
                     composite,
                     ctx,
                     typevar_values,
-                    # If position is None we can't narrow so don't bother.
-                    is_overload=is_overload and position is not None,
+                    # We can narrow only arguments that were passed directly by
+                    # position or keyword, so don't bother otherwise.
+                    is_overload=is_overload and isinstance(position, (int, str)),
                 )
             )
             if tv_map is None:
